@@ -36,6 +36,24 @@ def undecided(reason, detail=""):
     sys.exit(2)
 
 
+def prune_stale(pkg_root, keep):
+    """Scratch packages of source trees that no longer exist (removed scratch copies) are deleted: disk is limited."""
+    try:
+        for d in os.listdir(pkg_root):
+            if d == keep:
+                continue
+            m = os.path.join(pkg_root, d, "Cargo.toml")
+            try:
+                txt = open(m, encoding="utf-8").read()
+            except OSError:
+                continue
+            paths = re.findall(r'path\s*=\s*"([^"]+)/frost-core"', txt)
+            if paths and not os.path.isdir(paths[0]):
+                shutil.rmtree(os.path.join(pkg_root, d), ignore_errors=True)
+    except OSError:
+        pass
+
+
 def build(repo, target_dir, quiet=False):
     """Returns the path of the built binary; exits 2 on any build problem."""
     if not os.path.isfile(os.path.join(repo, "frost-core", "Cargo.toml")):
@@ -46,6 +64,7 @@ def build(repo, target_dir, quiet=False):
     lock_path = os.path.join(target_dir, "run_rt.lock")
     with open(lock_path, "w") as lock_file:
         fcntl.flock(lock_file, fcntl.LOCK_EX)
+        prune_stale(os.path.join(target_dir, "pkg"), keep=key)
         with open(os.path.join(CRATE, "Cargo.toml.in"), encoding="utf-8") as f:
             manifest = f.read().replace("@REPO@", repo).replace("@SRC@", os.path.join(CRATE, "src"))
         mpath = os.path.join(pkg, "Cargo.toml")
